@@ -156,7 +156,7 @@ func sseDoneBatch(rep *vh.Reporter, which string) {
 		lt.start = settleTo(clientSide, levels{Lib: map[string]int{}}, 500*time.Millisecond)
 		lt.cur = lt.start
 		for _, v := range []struct{ term, ctx string }{{"delayed", "cancelled-after-return"}, {"delayed", "never-cancelled"}, {"withheld", "never-cancelled"}} {
-			for _, p := range []int{1, 2, 8} {
+			for _, p := range pendings {
 				sc := scD
 				if v.term == "withheld" {
 					sc = scN
@@ -182,9 +182,15 @@ func sseDoneBatch(rep *vh.Reporter, which string) {
 		lt.start = settleTo(clientSide, levels{Lib: map[string]int{}}, 500*time.Millisecond)
 		lt.cur = lt.start
 		for _, v := range []struct{ term, ctx string }{{"as-sent", "cancelled-after-return"}, {"delayed", "cancelled-after-return"}, {"as-sent", "never-cancelled"}, {"delayed", "never-cancelled"}} {
-			for _, p := range []int{1, 2, 8} {
+			for _, p := range pendings {
 				cs := sseDone{Server: "real", Term: v.term, Ctx: v.ctx, Pending: p}
 				pend[cs.class()] = "n"
+				if v.term == "as-sent" {
+					if lt.control == nil {
+						lt.control = map[string]bool{}
+					}
+					lt.control[cs.class()] = true
+				}
 				runSSEDone(rep, lt, cs, px.URL()+in.Path, nil, px)
 			}
 		}
